@@ -408,6 +408,10 @@ def harnesses(tier):
             hs.append(Harness(f"copula.mixed.{rep}", h_copula_margins, {"npts": 1, "rep": rep, "fv": (True, False)}, max_paths=6000, batch=10))
             hs.append(Harness(f"copula.iv.{rep}", h_copula_margins, {"npts": 1, "rep": rep, "fv": (False, False)}, max_paths=6000, batch=10))
     hs.append(Harness("mean.2.2.grid_with_its_own_cell_boundaries", h_mean, {"nl": 2, "nr": 2, "rep": "TILDE", "fa": False, "fv": True, "own_cells": True}, max_paths=6000, batch=10))
+    if not q:
+        for rep, fv in (("ONEONE", True), ("CENTER", True), ("TILDE", False), ("ONEONE", False)):
+            hs.append(Harness(f"mean.2.2.grid_with_its_own_cell_boundaries.{rep}.fv{int(fv)}", h_mean, {"nl": 2, "nr": 2, "rep": rep, "fa": False, "fv": fv, "own_cells": True}, max_paths=6000, batch=10))
+        hs.append(Harness("mean.3.2.grid_with_its_own_cell_boundaries", h_mean, {"nl": 3, "nr": 2, "rep": "TILDE", "fa": False, "fv": True, "own_cells": True}, max_paths=6000, batch=10))
     hs.append(Harness("copula.axes_differ.TILDE", h_copula_margins, {"npts": 1, "nr": 2, "rep": "TILDE", "fv": True}, max_paths=6000, batch=10))
     hs.append(Harness("copula.variance", h_copula_variance, max_paths=2000, batch=10))
     hs.append(Harness("twin", h_twin, twin="must_fail"))
